@@ -1,8 +1,8 @@
 /* C14 / ThreadSanitizer program 6: iv_wait with real, short-lived fork()ed children in several loop threads.
  *   usage: tsan_wait <seed> <threads> <ms>
  * Every loop thread keeps two wait interests busy: iv_wait_interest_register_spawn() forks a child that exits at
- * once, exits after a short sleep, or pauses until its owner sends SIGTERM through iv_wait_interest_kill() from
- * a timer.  Whichever thread receives SIGCHLD reaps ALL children (iv_wait_got_sigchld) and posts the status to
+ * once, exits after a short sleep, stops itself three times (the owner continues it from its handler each time) and then
+ * exits, or pauses until its owner sends SIGTERM through iv_wait_interest_kill() from a timer.  Whichever thread receives SIGCHLD reaps ALL children (iv_wait_got_sigchld) and posts the status to
  * the interest's owner, so statuses routinely cross threads.  On death the owner unregisters the interest from
  * within its handler and spawns the next child until the time is up.  One spawn in four is "given up": a timer 0-600 us
  * after the spawn unregisters the interest from outside its handler, while the child may at that very moment be reaped
@@ -47,6 +47,13 @@ static void child_fn(void *_mode)
 	else if (mode == 2)
 		for (;;)
 			pause();
+	else if (mode == 3) {
+		/* several status changes of ONE child (stopped, continued, stopped, ... exited): the reaping thread queues each on the
+		 * owner's interest while the owner may be collecting the previous ones */
+		int k;
+		for (k = 0; k < 3; k++)
+			raise(SIGSTOP);
+	}
 	_exit(mode);
 }
 
@@ -88,6 +95,8 @@ static void wait_handler(void *_s, int status, const struct rusage *ru)
 	(void)ru;
 	if (!WIFEXITED(status) && !WIFSIGNALED(status)) {
 		t->n_other++;
+		if (WIFSTOPPED(status))
+			iv_wait_interest_kill(&s->wi, SIGCONT);
 		return;
 	}
 	t->n_dead++;
@@ -105,7 +114,7 @@ static void spawn(struct slot *s)
 {
 	struct thr *t = s->t;
 
-	s->mode = tsu_rand(&t->rng) % 3;
+	s->mode = tsu_rand(&t->rng) % 4;
 	IV_WAIT_INTEREST_INIT(&s->wi);
 	s->wi.cookie = s;
 	s->wi.handler = wait_handler;
